@@ -565,6 +565,10 @@ class OFCaptureSocket (CaptureSocket):
         self._enabled = False
         break
       packet_length = self._rbuf[2] << 8 | self._rbuf[3]
+      if packet_length < 8:
+        log.error("Bad OpenFlow length while trying to capture trace")
+        self._enabled = False
+        break
       if packet_length > l: break
       try:
         self._writer.write(False, self._rbuf[:packet_length])
@@ -584,6 +588,10 @@ class OFCaptureSocket (CaptureSocket):
         self._enabled = False
         break
       packet_length = self._sbuf[2] << 8 | self._sbuf[3]
+      if packet_length < 8:
+        log.error("Bad OpenFlow length while trying to capture trace")
+        self._enabled = False
+        break
       if packet_length > l: break
       try:
         self._writer.write(True, self._sbuf[:packet_length])
